@@ -795,6 +795,15 @@ def check_trace_O(res, box, case):
                         res.violate("C11:unicast-format", "unicast reply datagram with flags %#x (response + authoritative = 0x8400 expected)" % flags, at)
                     if o["sock"] is not rx_sock and mine:
                         res.violate("C11:unicast-socket", "unicast reply (block %s) not sent on the receiving socket" % b["kind"], at)
+        # ---- a queue flush sends only what some query's routing put into a queue (third review, X4: "by unicast alone" also holds 20 ms later):
+        #      every ANSWER of the batch was routed "multicast later" by an answering block at most 1.2 s ago (additionals are not judged)
+        if b["kind"] == "qf":
+            for g in groups:
+                for rid in sorted(set().union(*[set(o["ans"]) for o in g["outs"]]) if g["outs"] else set()):
+                    owed_by = [t_ for (t_, el_) in routed_later if t_ <= b["t"] <= t_ + 1200 and (el_ is None or rid in el_)]
+                    if not owed_by:
+                        res.violate("C11:unowed-multicast", "a queue flush multicasts %s, which no query of the last 1.2 s was routed to a queue for "
+                                    "(unicast alone / multicast at once / not asked)" % uni.describe(rid), at)
         # ---- a query that is not answered at all
         if b["kind"] == "rx" and mine and b.get("parsed") and not b["asm"] and not (b["parsed"]["flags"] & 0x200):
             pkt = b["parsed"]
